@@ -151,7 +151,7 @@ Proof. unfold write_at. cases_if'; cbn [fst snd]; auto; discriminate. Qed.
 
 Lemma b_errors_change_nothing_lemma s o : snd (b_step s o) = BErr -> fst (b_step s o) = s.
 Proof.
-  destruct o as [n|a|h|h n|w k be h off|w sg be h off v|w be h off bits|sh so dh doff len|h off len v|h|h1 h2|bs|h off len|h off bs|h st sp nd|h off len|h i j|h|h|]; cbn [b_step].
+  destruct o as [n|a|h|h n|w k be h off|w sg be h off v|w be h off bits|sh so dh doff len|h off len v|h|h1 h2|bs|h off len|h off bs|h st sp nd|h off len|h i j|content n|h|h|]; cbn [b_step].
   - cases_if'; cbn [fst snd]; auto. destruct (store_resource s (repeat 0 (Z.to_nat n))). cbn. discriminate.
   - destruct a as [z| |]; cases_if'; cbn [fst snd]; auto; discriminate.
   - cases_if'; cbn [fst snd]; auto.
@@ -170,6 +170,7 @@ Proof.
   - (* find *) cases_if'; cbn [fst snd]; auto.
   - (* reverse *) cases_if'; cbn [fst snd]; auto; discriminate.
   - (* swap *) cases_if'; cbn [fst snd]; auto; discriminate.
+  - (* read file *) destruct (store_resource s []) as [s1 k]. destruct (store_resource s1 _) as [s2 h0]. cbn. discriminate.
   - reflexivity.
   - reflexivity.
   - reflexivity.
@@ -375,7 +376,7 @@ Lemma b_isolation_lemma s o k d :
   get_buf s k = Some d -> bop_writes o <> Some (Z.of_N k) -> get_buf (fst (b_step s o)) k = Some d.
 Proof.
   intros Hg Hw. rewrite <- Hg.
-  destruct o as [n|a|h|h n|w kd be h off|w sg be h off v|w be h off bits|sh so dh doff len|h off len v|h|h1 h2|bs|h off len|h off bs|h st sp nd|h off len|h i j|h|h|];
+  destruct o as [n|a|h|h n|w kd be h off|w sg be h off v|w be h off bits|sh so dh doff len|h off len v|h|h1 h2|bs|h off len|h off bs|h st sp nd|h off len|h i j|content n|h|h|];
     cbn [b_step bop_writes] in *.
   - destruct (n <=? 0)%Z; [reflexivity|]. destruct (MAX_ALLOC <? Z.to_N n); [reflexivity|].
     destruct (store_resource s (repeat 0 (Z.to_nat n))) as [s' h0] eqn:E. cbn [fst].
@@ -424,6 +425,13 @@ Proof.
     destruct (get_buf s (Z.to_N h)) as [d0|]; [|reflexivity].
     destruct (nth_N d0 (Z.to_N i)); [|reflexivity]. destruct (nth_N d0 (Z.to_N j)); [|reflexivity].
     cbn [fst]. apply get_buf_set_ne. intro Hk. apply Hw. f_equal. lia.
+  - (* read file *)
+    destruct (store_resource s []) as [s1 k0] eqn:E1. destruct (store_resource s1 (firstn (Z.to_nat n) content)) as [s2 h0] eqn:E2.
+    cbn [fst]. destruct (store_resource_spec _ _ _ _ E1) as [Hn1 [_ Ho1]]. destruct (store_resource_spec _ _ _ _ E2) as [Hn2 [_ Ho2]].
+    assert (Hk0 : k <> k0) by (intros ->; congruence).
+    assert (Hg1 : get_buf s1 k = get_buf s k) by (apply Ho1; exact Hk0).
+    assert (Hh0 : k <> h0) by (intros ->; rewrite Hn2 in Hg1; congruence).
+    unfold get_buf at 1. rewrite nth_N_upd_ne by congruence. fold (get_buf s2 k). rewrite Ho2 by exact Hh0. exact Hg1.
   - reflexivity.
   - reflexivity.
   - reflexivity.
@@ -619,7 +627,7 @@ Lemma b_refines_lemma s m o :
   /\ BSim (fst (b_step s o)) (fst (bspec_step m o (snd (b_step s o)))).
 Proof.
   intro HS.
-  destruct o as [n|a|h|h n|w k be h off|w sg be h off v|w be h off bits|sh so dh doff len|h off len v|h|h1 h2|bs|h off len|h off bs|h st sp nd|h off len|h i j|h|h|];
+  destruct o as [n|a|h|h n|w k be h off|w sg be h off v|w be h off bits|sh so dh doff len|h off len v|h|h1 h2|bs|h off len|h off bs|h st sp nd|h off len|h i j|content n|h|h|];
     cbn [b_step bspec_step].
   - (* alloc *)
     destruct (n <=? 0)%Z; [bsim_done HS|]. destruct (MAX_ALLOC <? Z.to_N n); [bsim_done HS|].
@@ -699,6 +707,21 @@ Proof.
     unfold buf, byte, value in *.
     destruct (nth_N d (Z.to_N i)); [|bsim_done HS]. destruct (nth_N d (Z.to_N j)); [|bsim_done HS].
     cbn [fst snd]. split; [reflexivity|]. apply bsim_set; [exact HS|eapply get_buf_lt; exact Hg].
+  - (* read file *)
+    destruct (store_resource s []) as [s1 k] eqn:E1. destruct (store_resource s1 (firstn (Z.to_nat n) content)) as [s2 h] eqn:E2.
+    cbn [fst snd]. destruct (store_resource_spec _ _ _ _ E1) as [Hn1 [Hs1 Ho1]]. destruct (store_resource_spec _ _ _ _ E2) as [Hn2 [Hs2 Ho2]].
+    assert (Hhk : h <> k) by (intros ->; congruence).
+    assert (Hfresh : sm_get m h = None) by (rewrite <- (HS h), <- (Ho1 h Hhk); exact Hn2).
+    unfold sp_new. replace (Z.of_N h <? 0)%Z with false by lia. rewrite N2Z.id, Hfresh. cbn [fst snd].
+    split; [reflexivity|]. intro j. cbn [sm_get]. destruct (h =? j) eqn:Ej.
+    + assert (h = j) by lia. subst j. unfold get_buf. rewrite nth_N_upd_ne by congruence. exact Hs2.
+    + destruct (N.eq_dec k j) as [<-|Hkj].
+      * unfold get_buf. rewrite upd_N_same_len_nth, N.eqb_refl. cbn [andb].
+        rewrite <- (HS k), Hn1.
+        destruct (k <? N.of_nat (length s2)) eqn:El; [reflexivity|].
+        replace (nth_N s2 k) with (@None (option buf)); [reflexivity|]. symmetry. apply nth_N_None. lia.
+      * unfold get_buf at 1. rewrite nth_N_upd_ne by exact Hkj. fold (get_buf s2 j).
+        rewrite Ho2 by lia. rewrite Ho1 by congruence. apply HS.
   - (* fs.close *) bsim_done HS.
   - (* net.close *) bsim_done HS.
   - (* non-int operand *) bsim_done HS.
@@ -731,7 +754,7 @@ Qed.
 (* b_step never answers BBad, hence (by refinement) the specification never objects *)
 Lemma b_step_not_bad s o : snd (b_step s o) <> BBad.
 Proof.
-  destruct o as [n|a|h|h n|w k be h off|w sg be h off v|w be h off bits|sh so dh doff len|h off len v|h|h1 h2|bs|h off len|h off bs|h st sp nd|h off len|h i j|h|h|];
+  destruct o as [n|a|h|h n|w k be h off|w sg be h off v|w be h off bits|sh so dh doff len|h off len v|h|h1 h2|bs|h off len|h off bs|h st sp nd|h off len|h i j|content n|h|h|];
     cbn [b_step]; try (destruct a); unfold write_at;
     repeat match goal with
            | |- context [if ?c then _ else _] => destruct c
@@ -804,7 +827,7 @@ Proof.
   intros Hg Hnr Hnf.
   destruct (option_Z_dec (bop_writes o) (Some (Z.of_N k))) as [Hw|Hw];
     [|exists d; split; [apply b_isolation_lemma; assumption|reflexivity]].
-  destruct o as [n|a|h|h n|w kd be h off|w sg be h off v|w be h off bits|sh so dh doff len|h off len v|h|h1 h2|bs|h off len|h off bs|h st sp nd|h off len|h i j|h|h|];
+  destruct o as [n|a|h|h n|w kd be h off|w sg be h off v|w be h off bits|sh so dh doff len|h off len v|h|h1 h2|bs|h off len|h off bs|h st sp nd|h off len|h i j|content n|h|h|];
     cbn [bop_writes] in Hw; try discriminate; cbn [b_step].
   - destruct a as [z| |]; try discriminate. inversion Hw; subst z. exfalso. apply Hnf. reflexivity.
   - inversion Hw; subst h. exfalso. apply (Hnr n). reflexivity.
